@@ -170,15 +170,15 @@ HARNESSES = {
     "verify_ed25519_op": dict(props=["C12", "C05"], crates=CRV, fn=verify_ed25519_op, params=dict(quick=dict(nwords=2), thorough=dict(nwords=3)),
         witnesses=["verified", "rejected", "err"],
         bound=dict(quick="0..2 data words, byte_len any i64, symbolic signature / key words; ed25519-dalek uninterpreted (key parsing and verification may fail or succeed)", thorough="0..3 data words"),
-        replay=dict(kind="crypto_roundtrip")),
+        replay=dict(kind="crypto_roundtrip", differential=True)),
     "recover_secp_op": dict(props=["C12", "C19", "C05"], crates=CRV, fn=recover_secp_op, witnesses=["recovered", "unrecoverable", "err"],
         bound_text="any hash / signature words, recovery id any i64; secp256k1 wrapper uninterpreted (A2: id valid iff 0..3; parsing and recovery may fail)",
-        replay=dict(kind="crypto_roundtrip")),
+        replay=dict(kind="crypto_roundtrip", differential=True)),
     "contract_sign_recover": dict(props=["C19"], crates=CRS, fn=contract_sign_recover, witnesses=["ok", "ok-reordered"],
         bound_text="contract with symbolic salt; secp256k1 uninterpreted under A1 (recover(m, sign(m, sk)) = pub(sk), serialize/from_compact inverse); SHA-256 uninterpreted",
-        replay=dict(kind="crypto_roundtrip")),
+        replay=dict(kind="crypto_roundtrip", differential=True)),
     "recover_malformed": dict(props=["C19", "C06"], crates=CRS, fn=recover_malformed, witnesses=["ok", "err"],
-        bound_text="any 64 signature bytes, any recovery-id byte, any digest", replay=dict(kind="crypto_roundtrip")),
+        bound_text="any 64 signature bytes, any recovery-id byte, any digest", replay=dict(kind="crypto_roundtrip", differential=True)),
     "encodings": dict(props=["C19", "C12"], crates=CRS, fn=encodings, witnesses=["ok"],
-        bound_text="any 33 key bytes, any 64 signature bytes and recovery id", replay=dict(kind="crypto_roundtrip")),
+        bound_text="any 33 key bytes, any 64 signature bytes and recovery id", replay=dict(kind="crypto_roundtrip", differential=True)),
 }
